@@ -39,6 +39,15 @@ var StaleNaN = math.Float64frombits(value.StaleNaN)
 
 var ErrInjected = errors.New("verif: injected storage failure")
 
+// injected is the error of an injected failure: ErrInjected, or - for a storage whose own request to
+// its backend was cancelled or timed out - an error that wraps ErrInjected and the context error
+func (s *Store) injected() error {
+	if s.InjectedAlso != nil {
+		return fmt.Errorf("%w: backend request: %w", ErrInjected, s.InjectedAlso)
+	}
+	return ErrInjected
+}
+
 type SelectRecord struct {
 	Mint, Maxt int64
 	Hints      storage.SelectHints
@@ -67,6 +76,7 @@ type Store struct {
 	SlowSelectName  string
 	SlowSelectDelay time.Duration
 	YieldSeed   int64 // when non-zero, pseudo-random yields/sleeps in callbacks
+	InjectedAlso error // injected failures also wrap this error (context.Canceled, context.DeadlineExceeded)
 
 	mu        sync.Mutex
 	Selects   []SelectRecord
@@ -191,7 +201,7 @@ func (s *Store) hit(site string, ctx context.Context) string {
 
 func (s *Store) Querier(ctx context.Context, mint, maxt int64) (storage.Querier, error) {
 	if k := s.hit("querier", ctx); k == "error" {
-		return nil, fmt.Errorf("querier: %w", ErrInjected)
+		return nil, fmt.Errorf("querier: %w", s.injected())
 	}
 	s.mu.Lock()
 	s.Opens++
@@ -289,7 +299,7 @@ func (q *querier) Select(sorted bool, hints *storage.SelectHints, ms ...*labels.
 	}
 	ss := &seriesSet{q: q, idx: idx, pos: -1, lo: lo, hi: hi}
 	if k == "error" {
-		ss.err = fmt.Errorf("select: %w", ErrInjected)
+		ss.err = fmt.Errorf("select: %w", q.s.injected())
 	}
 	return ss
 }
@@ -307,7 +317,7 @@ func (ss *seriesSet) Next() bool {
 		return false
 	}
 	if k := ss.q.s.hit("ss.next", ss.q.ctx); k == "error" {
-		ss.err = fmt.Errorf("series set: %w", ErrInjected)
+		ss.err = fmt.Errorf("series set: %w", ss.q.s.injected())
 		return false
 	}
 	ss.pos++
@@ -321,7 +331,7 @@ func (ss *seriesSet) At() storage.Series {
 
 func (ss *seriesSet) Err() error {
 	if k := ss.q.s.hit("ss.err", ss.q.ctx); k == "error" && ss.err == nil {
-		ss.err = fmt.Errorf("series set err: %w", ErrInjected)
+		ss.err = fmt.Errorf("series set err: %w", ss.q.s.injected())
 	}
 	return ss.err
 }
@@ -367,7 +377,7 @@ func (it *iter) Next() chunkenc.ValueType {
 		return chunkenc.ValNone
 	}
 	if k := it.q.s.hit("it.next", it.q.ctx); k == "error" {
-		it.err = fmt.Errorf("iterator next: %w", ErrInjected)
+		it.err = fmt.Errorf("iterator next: %w", it.q.s.injected())
 		it.pos = len(it.smp)
 		return chunkenc.ValNone
 	}
@@ -388,7 +398,7 @@ func (it *iter) Seek(t int64) chunkenc.ValueType {
 		time.Sleep(it.slow)
 	}
 	if k := it.q.s.hit("it.seek", it.q.ctx); k == "error" {
-		it.err = fmt.Errorf("iterator seek: %w", ErrInjected)
+		it.err = fmt.Errorf("iterator seek: %w", it.q.s.injected())
 		it.pos = len(it.smp)
 		return chunkenc.ValNone
 	}
